@@ -1572,6 +1572,27 @@ func ruleR14_4(w *World, r *Report) {
 					}
 				}
 				counter := false
+				// when the walk lives in a helper of the analyser, the loop that keeps the population positive is the one
+				// around the helper's call in the analyser
+				if u.fn != u.owner {
+					for _, ci := range callsIn(u.owner) {
+						if !w.staticCalleeIs(ci, u.fn) {
+							continue
+						}
+						for _, h2 := range loopHeaders(u.owner) {
+							if !loopBlocks(u.owner, h2)[ci.Block()] {
+								continue
+							}
+							if iff, isIf := h2.Instrs[len(h2.Instrs)-1].(*ssa.If); isIf {
+								if bo, isB := iff.Cond.(*ssa.BinOp); isB && bo.Op == token.GTR {
+									if _, isPhi := bo.X.(*ssa.Phi); isPhi && isConstIntVal(bo.Y) {
+										counter = true
+									}
+								}
+							}
+						}
+					}
+				}
 				for _, h2 := range loopHeaders(fn) {
 					if h2 != h && !loopBlocks(fn, h2)[h] {
 						continue // neither this loop nor one around it
